@@ -32,7 +32,10 @@ constexpr auto asinh_compute(T const x) noexcept -> T
 {
     return ( // NaN check
         is_nan(x) ? etl::numeric_limits<T>::quiet_NaN() :
-                  // indistinguishable from zero
+                  // +/- infinite
+            !is_finite(x) ? x
+                          :
+                          // indistinguishable from zero
             etl::numeric_limits<T>::epsilon() > abs(x) ? T(0)
                                                        :
                                                        // else
